@@ -2142,6 +2142,38 @@ def functions():
         return "Definition g_staging_name (dst : list Z) (pid nanos seq : Z) : list Z :=\n  %s." % text
     out.append(("staging_name", "src/bin/copia/serve.rs create_staging: the staging name", None, t_staging_name))
 
+    STAGING_LOOP = """{ let nanos = std::time::SystemTime::now().duration_since(std::time::UNIX_EPOCH).map(|d| d.as_nanos()).unwrap_or(0);
+        let tmp = PathBuf::from(s);
+        match std::fs::OpenOptions::new().write(true).create_new(true).open(&tmp) {
+            Ok(f) => return Ok((tmp, f)),
+            Err(e) if e.kind() == std::io::ErrorKind::AlreadyExists => continue,
+            Err(e) => return Err(e),
+        } }"""
+
+    def t_create_staging():
+        """the retry loop around the translated name: checked LITERALLY (the clock reading, `create_new(true)`, and the three
+        arms Ok -> return / AlreadyExists -> continue / other error -> return), then read as the fuelled recursion below"""
+        src = read("src/bin/copia/serve.rs")
+        params, ret, body = R.find_fn(src, "create_staging", None)
+        norm = lambda x: json.loads(json.dumps(x))
+        want = R.Parser(R.tokenize(STAGING_LOOP)).block()
+        outer = list(body[1])
+        if [n for n, _ in params] != ["dst"] or [x[0] for x in outer[:2]] != ["item", "item"] or len(outer) != 3 \
+                or norm(outer[2]) != norm(("expr", ("path", ["loop"]), False)) or body[2] is None or body[2][0] != "block":
+            raise Unsupported("create_staging is no longer `use ..; static SEQ ..; loop { .. }`")
+        if not re.search(r"static SEQ: AtomicU64 = AtomicU64::new\(0\);", src):
+            raise Unsupported("create_staging: `static SEQ: AtomicU64 = AtomicU64::new(0);` not found")
+        inner = body[2]
+        stmts = list(inner[1])
+        if len(stmts) != 4 or norm(stmts[0]) != norm(want[1][0]) or norm(stmts[3]) != norm(want[1][1]) or norm(inner[2]) != norm(want[2]):
+            raise Unsupported("create_staging: the loop is no longer the reviewed one (read the clock; build the name; open with write(true).create_new(true); "
+                              "Ok -> return the name and file, AlreadyExists -> continue, any other error -> return it)")
+        return ("Fixpoint g_create_staging (fuel : nat) (open_new : list Z -> opened) (dst : list Z) (pid : Z) (nanos : Z -> Z) (seq : Z) : option (option (list Z)) :=\n"
+                "  match fuel with\n  | O => None\n  | S k => let tmp := g_staging_name dst pid (nanos seq) seq in\n"
+                "           match open_new tmp with\n           | Created => Some (Some tmp)\n           | AlreadyExists => g_create_staging k open_new dst pid nanos (seq + 1)\n"
+                "           | OtherError => Some None\n           end\n  end.")
+    out.append(("create_staging", "src/bin/copia/serve.rs create_staging: the create-new retry loop", None, t_create_staging))
+
     PAIR_CANON = "{ let canon = |p: &Path| std::fs::canonicalize(p).unwrap_or_else(|_| p.to_path_buf()); }"
 
     def t_root_pair_hash():
@@ -3099,7 +3131,7 @@ GROUPS = {
     "WireMagic": ("Model.Wire", False, ["read_magic"]),
     "WireFrame": ("Model.Wire", "wireframe", ["read_frame"]),
     "BisyncApply": ("", "bisync", ["apply"]),
-    "ConflictName": ("", "conflictname", ["short_hex", "short_hash", "loser_name", "hub_conflict_name", "staging_name"]),
+    "ConflictName": ("", "conflictname", ["short_hex", "short_hash", "loser_name", "hub_conflict_name", "staging_name", "create_staging"]),
     "HubDelete": ("", "hubseq", ["handle_delete", "handle_put", "handle_get"]),
     "BisyncRun": ("", "bisyncrun", ["run_bisync"]),
     "HubSync": ("", "hubsync", ["hub_sync"]),
@@ -3289,7 +3321,9 @@ def main():
                     "Definition hexd (n : Z) : Z := if n <? 10 then 48 + n else 87 + n.\nDefinition hex2 (b : Z) : list Z := [hexd (b / 16); hexd (b mod 16)].\n"
                     "(* `{}` of an unsigned integer: decimal digits; `{:x}`: lower-case hexadecimal digits - most significant first, `0` for zero *)\n"
                     "Fixpoint digits_aux (base : Z) (fuel : nat) (n : Z) (acc : list Z) : list Z :=\n  match fuel with O => acc | S f => let acc' := hexd (n mod base) :: acc in if n / base =? 0 then acc' else digits_aux base f (n / base) acc' end.\n"
-                    "Definition dec (n : Z) : list Z := digits_aux 10 (S (Z.to_nat (Z.log2 n))) n [].\nDefinition hexz (n : Z) : list Z := digits_aux 16 (S (Z.to_nat (Z.log2 n))) n [].\n\n" + "\n".join(texts))
+                    "Definition dec (n : Z) : list Z := digits_aux 10 (S (Z.to_nat (Z.log2 n))) n [].\nDefinition hexz (n : Z) : list Z := digits_aux 16 (S (Z.to_nat (Z.log2 n))) n [].\n"
+                    "(* `OpenOptions::new().write(true).create_new(true).open(p)`: created (O_EXCL: the name did not exist), the name exists, or another error *)\n"
+                    "Inductive opened := Created | AlreadyExists | OtherError.\n\n" + "\n".join(texts))
         elif digest == "sigtable":
             body += ("\nSection WithDigest.\nVariable digest : Type.\nVariable H : list Z -> digest.\nVariable deq : forall x y : digest, {x = y} + {x <> y}.\n"
                      "Definition digest_eqb (x y : digest) : bool := if deq x y then true else false.\n"
